@@ -670,8 +670,12 @@ radius_pkt_attr_get_from_offset(rad_pkt_hdr_p pkt, size_t offset,
 	if (offset < RADIUS_PKT_HDR_SIZE || offset > pkt_size)
 		return (EINVAL);
 	attr = ((rad_pkt_attr_p)(((uint8_t*)pkt) + offset));
-	if (((uint8_t*)RADIUS_PKT_ATTR_NEXT(attr)) > (((uint8_t*)pkt) + pkt_size))
-		return (EBADMSG);
+	if (offset != pkt_size) { /* offset == pkt_size: end position, no attribute to look at. */
+		if (2 > (pkt_size - offset)) /* No attr header. */
+			return (EBADMSG);
+		if (((uint8_t*)RADIUS_PKT_ATTR_NEXT(attr)) > (((uint8_t*)pkt) + pkt_size))
+			return (EBADMSG);
+	}
 	(*attr_ret) = attr;
 
 	return (0);
@@ -1252,6 +1256,8 @@ radius_pkt_chk(rad_pkt_hdr_p pkt, size_t pkt_size) {
 
 	if (NULL == pkt)
 		return (EINVAL);
+	if (RADIUS_PKT_HDR_SIZE > pkt_size) /* No header. */
+		return (EBADMSG);
 	if (RADIUS_PKT_HDR_LEN_GET(pkt) > pkt_size ||
 	    RADIUS_PKT_HDR_SIZE > RADIUS_PKT_HDR_LEN_GET(pkt) ||
 	    RADIUS_PKT_MAX_SIZE < RADIUS_PKT_HDR_LEN_GET(pkt))
